@@ -24,6 +24,16 @@ class SchedulerError(Exception):
     pass
 
 
+class Stuck(SchedulerError):
+    """a simulated thread did not come back to the scheduler: it sits in a blocking call that is not one of the simulated
+    primitives (the code under test uses something the harness does not control), or it loops without a visible operation"""
+
+    def __init__(self, name, last):
+        super().__init__(f"thread {name} did not reach its next scheduling point (last operation: {last})")
+        self.name = name
+        self.last = last
+
+
 class SimThread:
     """a simulated thread of control"""
 
@@ -72,6 +82,7 @@ class Scheduler:
         self.aborting = False
         self.local = threading.local()
         self.max_steps = 100000
+        self.step_timeout = 10.0  # wall-clock seconds one step may take (thread-local code between two visible operations)
 
     # ---- called from simulated code --------------------------------------------------------------------------------
     def me(self):
@@ -88,7 +99,8 @@ class Scheduler:
         self.threads[name] = t
         t.os_thread.start()
         t.sem.release()
-        t.ready.acquire()
+        if not t.ready.acquire(timeout=self.step_timeout):
+            raise Stuck(name, "thread-local prefix before its first visible operation")
         return t
 
     def _wrap(self, name, fn):
@@ -104,6 +116,12 @@ class Scheduler:
             return  # code running outside the simulation (setup/teardown by the harness)
         if self.aborting:
             raise _Abort()
+        # consecutive timed operations of this thread that timed out (reset when somebody else moves, see step)
+        if getattr(t, "just_timed_out", False):
+            t.spin = getattr(t, "spin", 0) + 1
+        else:
+            t.spin = 0
+        t.just_timed_out = False
         t.pending = (label, enabled or (lambda: True))
         if t.first:
             t.first = False
@@ -119,6 +137,27 @@ class Scheduler:
         t = self.me()
         if t is not None:
             t.yielded = True
+            t.just_timed_out = True
+
+    def nobody_else_enabled(self):
+        """used by the enabling predicate of a timed blocking operation: true when no other thread can perform its pending
+        operation (timed operations of the others count with their untimed condition only)"""
+        if getattr(self, "_probing", False):
+            return False
+        self._probing = True
+        try:
+            asking = [t for t in self.threads.values() if not t.finished and t.pending is not None]
+            n = 0
+            for t in asking:
+                try:
+                    if t.pending[1]():
+                        n += 1
+                except Exception:
+                    pass
+            # the asking thread itself evaluates to its untimed condition (false, else it would not ask)
+            return n == 0
+        finally:
+            self._probing = False
 
     def record(self, label, result=""):
         t = self.me()
@@ -151,8 +190,10 @@ class Scheduler:
         for other in self.threads.values():
             if other is not t:
                 other.yielded = False
+                other.spin = 0
         t.sem.release()
-        self.control.acquire()
+        if not self.control.acquire(timeout=self.step_timeout):
+            raise Stuck(name, self.log[-1][1] if self.log else "?")
         for tt in self.threads.values():
             if tt.error is not None and not getattr(tt, "error_reported", False):
                 tt.error_reported = True
@@ -167,6 +208,9 @@ class Scheduler:
                 return "done"
             en = self.enabled()
             if not en:
+                raise Deadlock(self.unfinished())
+            if all(getattr(self.threads[n], "spin", 0) >= 2 for n in en):
+                # everybody who can still move only polls: timed out twice in a row while nobody else moved
                 raise Deadlock(self.unfinished())
             name = chooser(en, self)
             self.step(name)
@@ -199,6 +243,17 @@ class SimQueue:
         return self.maxsize > 0 and len(self.items) >= self.maxsize
 
     def put(self, item, block=True, timeout=None):
+        if block and timeout is not None:
+            # a timed put: it times out only when real time passes with the queue still full, i.e. when nobody else can
+            # move (a retry after a time-out that changes nothing is not a step: the thread just stays parked)
+            self.sched.visible(f"{self.name}.put", lambda: not self._full() or self.sched.nobody_else_enabled())
+            if self._full():
+                self.sched.record(f"{self.name}.put", "Full")
+                self.sched.timed_out()
+                raise _queue.Full()
+            self.items.append(item)
+            self.sched.record(f"{self.name}.put", self._show(item))
+            return
         if block:
             self.sched.visible(f"{self.name}.put", lambda: not self._full())
             self.items.append(item)
